@@ -760,7 +760,7 @@ func init() {
 			assumptions: []string{"the harness' byte-list expander and model of fed bytes are correct", "Write/ReadFrom counts are trusted for the model (C15 decides them)"},
 			mandatory:   []string{"blocks_with_match", "shrink_discarding", "blocks_with_match_after_shrink_or_reset", "matches_with_source_retained_across_shrink", "reset_mode2", "blocks_ntl", "wrap:blocks_with_match", "wrap:refills", "wrap:shrink_discarding", "wrap:parse_EOF"},
 			expected:    []string{"overlapping_matches", "reset_mode3", "matches_with_source_before_block"}},
-		types: gen.ParserTypes, quickN: 12000, thorMul: 80, corpusN: 300, large: true,
+		types: gen.ParserTypes, quickN: 12000, thorMul: 40, corpusN: 300, large: true,
 		weights: DefaultWeights,
 		newObs: func(pc *PCase, ps *PState, c *core.Case, st *core.Stats) histObserver {
 			return &c01obs{cr: commonReach{st: st}}
@@ -845,7 +845,7 @@ func init() {
 			assumptions: []string{"positions are tracked by the harness' model of the stream; WindowSize and minimum match length are taken from the explicit configuration fields (defaults via the library's SetDefaults)"},
 			mandatory:   []string{"sequences", "offset==WindowSize", "matchlen==minimum", "shrink_discarding", "offset==stream_position", "wrap:blocks_with_match"},
 			expected:    []string{"offset==WindowSize-1", "matchlen==MaxMatchLen"}},
-		types: gen.ParserTypes, quickN: 12000, thorMul: 80, corpusN: 300, large: true,
+		types: gen.ParserTypes, quickN: 12000, thorMul: 40, corpusN: 300, large: true,
 		weights: HWeights{Write: 18, ReadFrom: 8, Parse: 30, ParseNTL: 10, ParseNil: 6, Shrink: 14, Reset: 1, ResetData: 2, WParse: 8, Faults: true},
 		tweak: func(r *rand.Rand, pc *PCase, kind string) {
 			// windows smaller than the data so that the guard is under load
@@ -1006,7 +1006,7 @@ func init() {
 			assumptions: []string{"n == min(BlockSize, unparsed) is deliberately NOT asserted for a normal Parse (C03 does not state it)"},
 			mandatory:   []string{"quadrant:flags0,seqs", "quadrant:flags0,noseqs", "quadrant:ntl,seqs", "quadrant:ntl,noseqs", "empty_buffer_reports", "unparsed>BlockSize", "unparsed<BlockSize", "second_parse_of_a_fill", "ntl_blocks_with_bytes_offered_again", "wrap:parse_calls_that_refilled", "wrap:blocks_with_match"},
 			expected:    []string{"unparsed==BlockSize"}},
-		types: gen.ParserTypes, quickN: 12000, thorMul: 80, corpusN: 300, large: true,
+		types: gen.ParserTypes, quickN: 12000, thorMul: 40, corpusN: 300, large: true,
 		weights: HWeights{Write: 18, ReadFrom: 8, Parse: 26, ParseNTL: 22, ParseNil: 5, Shrink: 10, Reset: 1, ResetData: 2, WParse: 10, Faults: true},
 		newObs: func(pc *PCase, ps *PState, c *core.Case, st *core.Stats) histObserver {
 			return &c03obs{cr: commonReach{st: st}, st: st}
@@ -1095,7 +1095,7 @@ func init() {
 			assumptions: []string{"matches that reference skipped bytes are counted, not required (the property grants permission only)"},
 			mandatory:   []string{"parse_nil_skips", "parse_nil_empty", "parse_nil_partial_drain", "blocks_after_skip", "matches_referencing_skipped_bytes", "wrap:parse_calls_that_refilled"},
 		},
-		types: gen.ParserTypes, quickN: 12000, thorMul: 80, corpusN: 300, large: true,
+		types: gen.ParserTypes, quickN: 12000, thorMul: 40, corpusN: 300, large: true,
 		weights: HWeights{Write: 18, ReadFrom: 8, Parse: 22, ParseNTL: 8, ParseNil: 22, Shrink: 12, Reset: 1, ResetData: 1, WParse: 10, Faults: true},
 		newObs: func(pc *PCase, ps *PState, c *core.Case, st *core.Stats) histObserver {
 			return &c14obs{cr: commonReach{st: st}, st: st}
